@@ -37,8 +37,11 @@
    TIED to /repo on every run (not proved in this file): tools/translate_serial.py regenerates, per
    serializable class X, coq/gen/c18/C18_X.v with write_fields_X / read_fields_X / members_X /
    transient_X and the obligations rw_X (read_fields_X = write_fields_X, by reflexivity), cover_X
-   (covers ... = true, by vm_compute) and stale_X, plus the nested descriptions wdesc_X / rdesc_X (member classes as
-   parameters) with nrw_X; tools/c18.py compiles each file separately, composes the nested descriptions in
+   (covers ... = true, by vm_compute), stale_X and rebuild_X (DERIVED STATE: every transient member is either
+   re-established by read() -- referenced, or written by a non-const member function read() calls, at or after the last
+   streaming statement; source-level reading confirmed on clang's AST on every run -- or exempt with a one-line reason in
+   REBUILD_NOT_REQUIRED; a cache read() no longer rebuilds is reported as transient-not-rebuilt:<Class>::<member>), plus
+   the nested descriptions wdesc_X / rdesc_X (member classes as parameters) with nrw_X; tools/c18.py compiles each file separately, composes the nested descriptions in
    coq/gen/C18NestedAll.v (deep_rw_X uses deep_rw_Y of the member classes Y; roundtrip_X instantiates
    C18_nested_class_roundtrip) and checks coq/gen/C18DataTie.v (regenerated Data / LabeledData / Shape = modelled
    layout).  read()/write() that delegate to a helper member function are translated by inlining the helper
@@ -47,6 +50,13 @@
    MONITORED only (C++ harness harness/c18_*.cpp, text and binary archives): that the restored C++
    object behaves identically (outputs, parameters, dataset structure, next optimizer iterates; incl. the
    multi-objective optimizers with a configured indicator reference point, weighted datasets, image models).
+   For every model and kernel class of the harness ALL advertised behaviours are compared (harness/c18_behave.h):
+   feature flags, eval (batch, with state, single pattern) and -- where hasFirstParameterDerivative /
+   hasFirstInputDerivative say so -- weightedParameterDerivative, weightedInputDerivative, weightedDerivatives on a fixed
+   probe batch and a fixed coefficient matrix, for the object restored into a default-constructed (minimal) object and
+   into a differently structured / parameterised one, before any setter is called on it (key
+   roundtrip:<Class>:<behaviour>; this is what notices a cache that read() fails to rebuild, which parameters, shapes
+   and eval() do not show).  That a rebuilt cache holds the RIGHT value is only compared here, not proved.
    Not modelled: Boost.Serialization itself (archive header, class-id/version/tracking and object-id records, pointer
    tracking); the 4 classes that loop over constructor-fixed structure are not composed into C18NestedAll.v;
    "behaves identically" follows from "all non-transient members equal" only under the assumption
